@@ -47,7 +47,7 @@ def main():
         case = json.loads(cj)
         ctx = core.Ctx()
         try:
-            sc.body(case, ctx)
+            core.guard_body(sc.body, case, ctx)
         except core.Violation as v:
             stats.record(cj, ctx)
             flush()
